@@ -470,7 +470,9 @@ def _prep_iterators(mol: Molecules, shape: tuple[int, int, int], scale: float):
     # division slightly off (e.g. 3.0 / 0.3 -> 9.999999). Snap it, otherwise its fragment
     # is placed one voxel off or loses the first plane of the template.
     snapped = np.round(pos * 2) / 2
-    pos = np.where(np.abs(pos - snapped) < 1e-4, snapped, pos).astype(np.float32)
+    # the rounding error of the float32 division grows with the coordinate
+    tol = 1e-4 + 8 * np.finfo(np.float32).eps * np.abs(pos)
+    pos = np.where(np.abs(pos - snapped) < tol, snapped, pos).astype(np.float32)
     intpos = pos.astype(np.int32)
     residue = pos - intpos.astype(np.float32)
 
